@@ -32,6 +32,13 @@ void stamp_ops(int tid, const C19Op *ops, int n)
         c19_stamp(tid, C19_S_RENEW, (size_t)*st[a], 0);
       }
       break;
+    case C19_S_RENEW_MANY:  // a long run of stamps on one thread
+      if (st[a])
+        for (int k = 0; k < 20 + 10 * (int)op.b; k++) {
+          st[a]->renew();
+          c19_stamp(tid, C19_S_RENEW, (size_t)*st[a], 0);
+        }
+      break;
     case C19_S_COPY:
       if (st[b] && a != b) {
         delete st[a];
